@@ -35,7 +35,12 @@ def run(ck, P):
             if a.get(old) is False:
                 continue
             dr = [e for e in evs if e.kind == "call" and e.callee == "mod_deregister" and S(e.args[0]) == "&" + old and cval(e.args[1]) == 0]
-            if not (a.get(old) is True and a.get("(%s->flags & %d)" % (old, AR)) is True and dr and a.get("ret") is False):
+            # the variable that holds the result of that deregistration, whatever it is called, tested after the call
+            bind = [e for e in evs if e.kind in ("decl", "assign") and e.rhs is not None and strip(e.rhs).get("callee") == "mod_deregister"]
+            rvn = S(bind[0].lhs) if bind else "ret"
+            aft = rules.path_assumes_after(path, bind[0]) if bind else a
+            succeeded = aft.get(rvn) is False or aft.get("(%s == 0)" % rvn) is True
+            if not (a.get(old) is True and a.get("(%s->flags & %d)" % (old, AR)) is True and dr and succeeded):
                 bad = ("insertion reachable while a module with that name is still registered", path)
                 break
         elif a.get(old) is True and a.get("(%s->flags & %d)" % (old, AR)) is False:
@@ -133,11 +138,26 @@ def run(ck, P):
         okp = len(sc) == 1
         if okp:
             a = sc[0].args
-            prefix = strip(a[1]).get("v") if strip(a[1])["k"] == "str" else None
+
+            def _strval(x):
+                """the string a strncmp argument denotes: a literal, or a const char array (file- or function-scope static) initialised with one"""
+                x = strip(x)
+                if x["k"] == "str":
+                    return x.get("v")
+                if x["k"] == "var":
+                    for g_ in P.globals:
+                        if g_["name"] == x["name"] and g_.get("const") and g_.get("init") and strip(g_["init"])["k"] == "str" \
+                                and (not g_.get("func") or g_["func"] == ism.name):
+                            return strip(g_["init"]).get("v")
+                return None
+            prefix = _strval(a[1])
             ln = strip(a[2])
-            okp = prefix is not None and S(a[0]) == ism.params[0]["name"] and ((ln.get("callee") == "strlen" and strip(ln["args"][0]).get("v") == prefix) or cval(a[2]) == len(prefix))
+            okp = prefix is not None and S(a[0]) == ism.params[0]["name"] and \
+                ((ln.get("callee") == "strlen" and _strval(ln["args"][0]) == prefix) or cval(a[2]) == len(prefix))
             rv = [e for e in ism.events() if e.kind == "ret"]
-            okp = okp and len(rv) == 1 and "strncmp" in S(rv[0].e) and "== 0" in S(rv[0].e) and S(rv[0].e).startswith("(" + ism.params[0]["name"] + " &&")
+            pn0 = ism.params[0]["name"]
+            okp = okp and len(rv) == 1 and "strncmp" in S(rv[0].e) and "== 0" in S(rv[0].e) and \
+                (S(rv[0].e).startswith("(" + pn0 + " &&") or S(rv[0].e).startswith("((" + pn0 + " != NULL) &&"))
         ck.ob("C15.5-RESERVED", ism.site("prefix test"), okp, "prefix %r compared over its full length" % prefix)
     else:
         # the predicate written out in place (macro / by hand): every path of m_mod_ps_publish to an effect has refuted
